@@ -608,13 +608,13 @@ theorem strListIs_strList : ∀ l : List Str, strListIs l (strList l) = true
   | [] => rfl
   | s :: rest => by simp [strList, strListIs, scalarEq, strListIs_strList rest]
 
-theorem defaultVal_sound : ∀ (t : Ty) (d : Str) (v : Val), defaultVal t d = .ok v → satDefault t d v = true
+theorem defaultVal_sound (c : Cfg) (hc : c.pinned = false) :
+    ∀ (t : Ty) (d : Str) (v : Val), defaultVal c t d = .ok v → satDefault t d v = true
   | .ptr t, d, v, h => by
     unfold defaultVal at h
-    split at h
-    · simp at h
-    · obtain ⟨v', hv', rfl⟩ := exceptMap_ok h
-      simp [satDefault, defaultVal_sound t d v' hv']
+    simp only [hc, Bool.false_and, Bool.false_eq_true, if_false] at h
+    obtain ⟨v', hv', rfl⟩ := exceptMap_ok h
+    simp [satDefault, defaultVal_sound c hc t d v' hv']
   | .prim k, d, v, h => by
     unfold defaultVal at h
     simp [satDefault, h, convertFromString_scalar h]
@@ -712,11 +712,10 @@ theorem withValue_sound (c : Cfg) (hc : c.pinned = false) :
         ∧ optionsOK (effOpts o) (derefKind t) j = true
   | .ptr t, o, j, v, h => by
     unfold withValue at h
-    split at h
-    · simp at h
-    · obtain ⟨v', hv', rfl⟩ := exceptMap_ok h
-      have := withValue_sound c hc t o j v' hv'
-      simpa [satTy, derefKind] using this
+    simp only [hc, Bool.false_and, Bool.false_eq_true, if_false] at h
+    obtain ⟨v', hv', rfl⟩ := exceptMap_ok h
+    have := withValue_sound c hc t o j v' hv'
+    simpa [satTy, derefKind] using this
   | .prim k, o, j, v, h => by
     unfold withValue at h
     simpa [satTy, derefKind] using primWithValue_sound hc h
@@ -763,10 +762,9 @@ theorem elemValue_sound (c : Cfg) (hc : c.pinned = false) :
     ∀ (t : Ty) (j : J) (v : Val), elemValue c t j = .ok v → satTy c t j v = true
   | .ptr t, j, v, h => by
     unfold elemValue at h
-    split at h
-    · simp at h
-    · obtain ⟨v', hv', rfl⟩ := exceptMap_ok h
-      simpa [satTy] using elemValue_sound c hc t j v' hv'
+    simp only [hc, Bool.false_and, Bool.false_eq_true, if_false] at h
+    obtain ⟨v', hv', rfl⟩ := exceptMap_ok h
+    simpa [satTy] using elemValue_sound c hc t j v' hv'
   | .prim k, j, v, h => by
     unfold elemValue at h
     cases j with
@@ -820,11 +818,9 @@ theorem mapElemValue_sound (c : Cfg) (hc : c.pinned = false) :
     ∀ (t : Ty) (j : J) (v : Val), mapElemValue c t j = .ok v → satTy c t j v = true
   | .ptr t, j, v, h => by
     unfold mapElemValue at h
-    split at h
-    · simp at h
-    · simp only [hc, Bool.false_and, Bool.false_eq_true, if_false] at h
-      obtain ⟨v', hv', rfl⟩ := exceptMap_ok h
-      simpa [satTy] using mapElemValue_sound c hc t j v' hv'
+    simp only [hc, Bool.false_and, Bool.false_eq_true, if_false] at h
+    obtain ⟨v', hv', rfl⟩ := exceptMap_ok h
+    simpa [satTy] using mapElemValue_sound c hc t j v' hv'
   | .prim k, j, v, h => by
     unfold mapElemValue at h
     cases j with
@@ -884,10 +880,9 @@ theorem absentRequired_sound (c : Cfg) (hc : c.pinned = false) :
     ∀ (t : Ty) (v : Val), absentRequired c t = .ok v → satAbsent c t v = true
   | .ptr t, v, h => by
     unfold absentRequired at h
-    split at h
-    · simp at h
-    · obtain ⟨v', hv', rfl⟩ := exceptMap_ok h
-      simpa [satAbsent] using absentRequired_sound c hc t v' hv'
+    simp only [hc, Bool.false_and, Bool.false_eq_true, if_false] at h
+    obtain ⟨v', hv', rfl⟩ := exceptMap_ok h
+    simpa [satAbsent] using absentRequired_sound c hc t v' hv'
   | .prim _, v, h => by simp [absentRequired] at h
   | .struct fs, v, h => by
     unfold absentRequired at h
@@ -908,7 +903,7 @@ theorem unmFields_sound (c : Cfg) (hc : c.pinned = false) :
   | .cons name tag t rest, m, vs, h => by
     unfold unmFields at h
     cases hf : fieldCore c name tag t.isSlice m (fun o j => withValue c o t j) (fun _ => absentRequired c t)
-        (defaultVal t) (zero t) with
+        (defaultVal c t) (zero t) with
     | error e => simp [hf] at h
     | ok v =>
       cases hrest : unmFields c rest m with
@@ -919,7 +914,7 @@ theorem unmFields_sound (c : Cfg) (hc : c.pinned = false) :
           (absent := fun v => satAbsent c t v) (dflt := fun d v => satDefault t d v) (isZ := fun v => isZero t v) hc
           (fun o j v hv => withValue_sound c hc t o j v hv)
           (fun v hv => absentRequired_sound c hc t v hv)
-          (fun d v hv => defaultVal_sound t d v hv)
+          (fun d v hv => defaultVal_sound c hc t d v hv)
           (isZero_zero t) hf
         have h2 := unmFields_sound c hc rest m vs' hrest
         simp [satFields, h1, h2]
